@@ -80,14 +80,13 @@ fn big_unit(rng: &mut Rng, lo: f32, hi: f32) -> (usize, usize, Vec<[f32; 3]>, Ve
     let (w, h) = crate::util::big(rng.below(4) as usize & 2);
     big_unit_wh(rng, lo, hi, w, h)
 }
-/// which huge shape a family uses in this run (quick: one, rotating with the seed and the family; thorough: all four)
+/// the huge shapes a family converts in this run: all four (full HD, single row, single column, 2049x1025), one rotating
+/// with the seed in the thinned tier C20 uses
 fn huge_shapes(o: &Opts, fam: usize) -> Vec<(usize, usize)> {
-    if o.thorough {
-        (0..4).map(crate::util::huge).collect()
-    } else if o.mini {
-        Vec::new()
-    } else {
+    if o.mini {
         vec![crate::util::huge(o.seed as usize + fam)]
+    } else {
+        (0..4).map(crate::util::huge).collect()
     }
 }
 fn big_unit_wh(rng: &mut Rng, lo: f32, hi: f32, w: usize, h: usize) -> (usize, usize, Vec<[f32; 3]>, Vec<usize>) {
@@ -347,7 +346,7 @@ pub fn gen_c06(sh: &mut Shards, o: &Opts) -> serde_json::Value {
         }
     }
     for (k, &c) in [9u8, 4, 10, 12, 22].iter().enumerate() {
-        for (hw, hh) in huge_shapes(o, 2 + k).into_iter().take(if k < 2 || o.thorough { 4 } else { 0 }) {
+        for (hw, hh) in huge_shapes(o, 2 + k).into_iter().take(if o.thorough { 4 } else if k < 2 { 2 } else { 0 }).skip(0) {
             let mut rng = Rng::new(o.seed, 0x0606_b170 + u64::from(c));
             let (w, h, big, idx) = big_unit_wh(&mut rng, -0.5, 2.0, hw, hh);
             let a = prim_to709(c, &big, w, h);
